@@ -128,6 +128,40 @@ pub fn cleanup_scratch() {
     let _ = std::fs::remove_dir_all(scratch());
 }
 
+/// Run one of the generators through one of its channels:
+///   mode 0: input on stdin, formula on stdout
+///   mode 1: input as INPUT file argument, formula on stdout
+///   mode 2: INPUT file and OUTPUT file arguments; the OUTPUT file exists already, is longer than
+///           any formula of a small instance and has a name with a blank and a double quote
+/// (`takes_input` false: the generator has only an OUTPUT argument; mode 1 then equals mode 0).
+/// Returns the run with `stdout` holding the formula wherever it was written; in mode 2 anything
+/// printed to stdout instead is appended after a marker line so that a caller's parser rejects it.
+pub fn run_gen(bin: &str, flags: &[String], input: &[u8], takes_input: bool, mode: usize) -> Run {
+    let mut args: Vec<String> = flags.to_vec();
+    let mode = if !takes_input && mode == 1 { 0 } else { mode };
+    let mut out_file: Option<PathBuf> = None;
+    if takes_input && mode >= 1 {
+        args.push(scratch_file("generator input.txt", input).display().to_string());
+    }
+    if mode == 2 {
+        let stale = format!("\"stale text of an earlier, larger instance\"\n{}\ntrue\n", "stale_variable_of_an_earlier_run &\n".repeat(20000));
+        let f = scratch_file("generator \"out\" file.txt", stale.as_bytes());
+        args.push(f.display().to_string());
+        out_file = Some(f);
+    }
+    let mut r = run_bin(bin, &args, if takes_input && mode == 0 { Some(input) } else { None }, &[]);
+    if let Some(f) = out_file {
+        let written = std::fs::read(&f).unwrap_or_default();
+        let mut all = written;
+        if !r.stdout.is_empty() {
+            all.extend_from_slice(b"\n<<< unexpected text on stdout although an OUTPUT file was given >>>\n");
+            all.extend_from_slice(&r.stdout);
+        }
+        r.stdout = all;
+    }
+    r
+}
+
 pub fn s(x: &str) -> String {
     x.to_string()
 }
